@@ -1,0 +1,100 @@
+//go:build verif
+
+package protocol
+
+import (
+	"sort"
+
+	"github.com/taurusgroup/multi-party-sig/pkg/party"
+)
+
+// VerifSnapshot is a read-only projection of a handler's state used by the verification harness.
+// It only exists when building with the `verif` tag.
+type VerifSnapshot struct {
+	// Round is the number of the round the handler currently waits in (0 for the output / abort round).
+	Round int
+	// Rounds lists the round numbers that have been entered so far.
+	Rounds []int
+	// HasResult / HasErr describe the terminal state.
+	HasResult, HasErr bool
+	// Culprits as recorded in the error (nil when there is none).
+	Culprits []party.ID
+	// ErrText is the text of the terminal error.
+	ErrText string
+	// StoredB / StoredM list for every round the senders whose broadcast / p2p message is stored.
+	StoredB, StoredM map[int][]party.ID
+	// BroadcastHashes is a copy of the echo hashes computed so far.
+	BroadcastHashes map[int][]byte
+	// OutLen / OutCap describe the outgoing channel.
+	OutLen, OutCap int
+}
+
+func verifStored(q map[party.ID]*Message) []party.ID {
+	var ids []party.ID
+	for id, m := range q {
+		if m != nil {
+			ids = append(ids, id)
+		}
+	}
+	sort.Slice(ids, func(i, j int) bool { return ids[i] < ids[j] })
+	return ids
+}
+
+// VerifSnapshot returns the projection of the handler's state under its lock.
+func (h *MultiHandler) VerifSnapshot() VerifSnapshot {
+	h.mtx.Lock()
+	defer h.mtx.Unlock()
+	s := VerifSnapshot{
+		Round:           int(h.currentRound.Number()),
+		HasResult:       h.result != nil,
+		HasErr:          h.err != nil,
+		StoredB:         map[int][]party.ID{},
+		StoredM:         map[int][]party.ID{},
+		BroadcastHashes: map[int][]byte{},
+		OutLen:          len(h.out),
+		OutCap:          cap(h.out),
+	}
+	for n := range h.rounds {
+		s.Rounds = append(s.Rounds, int(n))
+	}
+	sort.Ints(s.Rounds)
+	if h.err != nil {
+		s.Culprits = append([]party.ID(nil), h.err.Culprits...)
+		if h.err.Err != nil {
+			s.ErrText = h.err.Err.Error()
+		}
+	}
+	for n, q := range h.broadcast {
+		s.StoredB[int(n)] = verifStored(q)
+	}
+	for n, q := range h.messages {
+		s.StoredM[int(n)] = verifStored(q)
+	}
+	for n, b := range h.broadcastHashes {
+		s.BroadcastHashes[int(n)] = append([]byte(nil), b...)
+	}
+	return s
+}
+
+// VerifSnapshot returns the projection of the two-party handler's state under its lock.
+func (h *TwoPartyHandler) VerifSnapshot() VerifSnapshot {
+	h.mtx.Lock()
+	defer h.mtx.Unlock()
+	s := VerifSnapshot{
+		Round:     int(h.round.Number()),
+		HasResult: h.result != nil,
+		HasErr:    h.err != nil,
+		StoredM:   map[int][]party.ID{},
+		OutLen:    len(h.out),
+		OutCap:    cap(h.out),
+	}
+	if h.err != nil {
+		s.ErrText = h.err.Error()
+	}
+	for n, m := range h.messages {
+		if m != nil {
+			s.StoredM[int(n)] = []party.ID{m.From}
+		}
+	}
+	return s
+}
